@@ -65,6 +65,8 @@ class Checker:
         self.repo = repo
         self.t0 = time.time()
         self.timeout = 10 if tier == 'quick' else 30
+        if os.environ.get('GOVC_TIMEOUT'):
+            self.timeout = int(os.environ['GOVC_TIMEOUT'])      # (for testing the retry path)
         self.seed = int(os.environ.get('VERIF_SEED', '0') or 0)
 
     def run(self):
@@ -224,6 +226,27 @@ class Checker:
         with ThreadPoolExecutor(max_workers=16) as ex:
             for vc, o, r in ex.map(run, items):
                 results.append((vc, o, r))
+        # second chance, unloaded: an obligation that ended in timeout/unknown/error while 16 solvers shared the machine is
+        # re-run with four times the time limit, few at a time; only what is still undecided then counts as failed
+        # (a refutation - `sat` - is never retried)
+        retry = [i for i, (vc, o, r) in enumerate(results) if o.expect == 'unsat' and r['status'] in ('timeout', 'unknown', 'error')]
+        self.retried = []
+        if retry and len(retry) <= 40:
+            def rerun(i):
+                vc, o, r = results[i]
+                tmo = (120 if 'slow' in o.tags else self.timeout) * 4
+                if vc.quant_defs:
+                    r0 = smt.solve(vc.query(o, 1, noq=True), wd.path, vc.fname + '##noq4##' + o.name, tmo, order=('z3new',))
+                    if r0['status'] == 'unsat':
+                        r0['variant'] = 'instances-only'
+                        return i, r0
+                return i, smt.solve(vc.query(o, 1), wd.path, vc.fname + '##4##' + o.name, tmo)
+            with ThreadPoolExecutor(max_workers=4) as ex:
+                for i, r2 in ex.map(rerun, retry):
+                    self.retried.append(results[i][1].name)
+                    if r2['status'] == 'unsat':
+                        r2['retried'] = True
+                        results[i] = (results[i][0], results[i][1], r2)
         if self.tier == 'thorough':
             results = self.cross_check(results, wd)
         known = [k for k in load_known_findings()]
@@ -410,6 +433,7 @@ class Checker:
                 'known_finding_obligations': [o.name for o, _ in kf_hits],
                 'failed_obligations': [o.name for _, o, _ in violations],
                 'undecided_vacuity_covers': self.undecided_covers,
+                'retried_with_longer_timeout': getattr(self, 'retried', []),
                 'notes_not_counted': getattr(self, 'notes', []),
                 'deferred_to_thorough_tier': self.deferred,
                 'bounded': self.bounded,
